@@ -222,10 +222,17 @@ func (c *coalescer) run() {
 		case <-c.done:
 			// Drain anything still buffered and exit. Submit refuses new
 			// enqueues once done is closed, so the channel is a bounded
-			// set at this point.
-			drainReady()
-			flush()
-			return
+			// set at this point. drainReady stops at maxBatch while the
+			// channel buffers up to 4*maxBatch accepted messages, so keep
+			// draining and flushing until the channel is observed empty;
+			// a single pass silently drops everything beyond one batch.
+			for {
+				drainReady()
+				if len(batch) == 0 {
+					return
+				}
+				flush()
+			}
 		case m := <-c.in:
 			batch = append(batch, m)
 			drainReady()
